@@ -23,8 +23,23 @@ VERIF = os.path.dirname(os.path.dirname(os.path.abspath(__file__)))
 # modes
 
 
+class ResultShape(Exception):
+    """the code under contract returned an array of another shape than its contract states (raised by Mode.shaped;
+    reported as the failed obligation <name>/result-shape, not as a crash of the harness that cannot go on)"""
+
+    def __init__(self, name, got, want):
+        Exception.__init__(self, "%s: shape %s, contract says %s" % (name, got, want))
+        self.name, self.got, self.want = name, got, want
+
+
 class Mode:
     """what a harness sees: symbol factory, number field, obligation sink"""
+
+    def shaped(self, name, arr, shape):
+        got = tuple(getattr(arr, "shape", ()))
+        if got != tuple(shape):
+            raise ResultShape(name, got, tuple(shape))
+        return arr
 
     def __init__(self, kind, env=None, tol=1e-9, dps=50):
         from . import fields
@@ -613,6 +628,15 @@ def run_task(ref, shape, kind="sym", env=None, wanted=None, sample_seed=None):
             pass
         if isinstance(e, Undecided):
             rec["status"] = "undecided"
+        elif isinstance(e, ResultShape):
+            env = {}
+            try:
+                env = {k: str(v) for k, v in M.env.items()}
+            except Exception:
+                pass
+            rec["results"] = list(rec.get("results") or []) + [{
+                "name": e.name + "/result-shape", "status": "failed", "backend": "run", "secs": 0.0,
+                "detail": "the code under contract returned shape %s where its contract states %s" % (e.got, e.want), "cex": {"env": env}}]
         elif _raised_in_repo(e):
             # the function under contract raised on an input satisfying its precondition: that is a failed
             # obligation of the contract ("returns normally"), not a checker crash
@@ -938,13 +962,18 @@ def summarize(check, tier, seed, records, wall, extra_bounded=None):
         fam = (item[1]["harness"], _shape_tag(item[1]["shape"]), item[2]["name"].split("[")[0].rsplit("/", 1)[-1])
         order.append((fam in seen_fam, -float((item[2].get("cex") or {}).get("diff") or 0.0), len(order), item))
         seen_fam.add(fam)
-    failed = [it for _, _, _, it in sorted(order, key=lambda t: (t[0], t[1], t[2]))]
+    failed = [it for _, _, _, it in sorted(order, key=lambda t: (t[0], t[3][1].get("kind") == "float", t[1], t[2]))]
     for full, rec, r in failed:
         kf = match_known(prop, full, known)
         verdict = None
         if r.get("cex") and r["cex"].get("env") is not None and rec.get("harness") and nreplay < 8:
             nreplay += 1
             verdict = native_replay(rec["harness"], rec["shape"], r["cex"]["env"], r["name"], prop, 1e-8, rec.get("sample_seed"))
+        elif rec.get("kind") == "float" and r.get("cex") and r["cex"].get("env"):
+            # a failed float sample IS a failing input of the unmodified float64 code (evaluated in-process, recorded in
+            # the replay file); only the separate-interpreter re-run was skipped because its budget of 8 was used up
+            verdict = {"verdict": "native-disagrees-with-spec", "in_process": True,
+                       "detail": "obligation evaluated on the unmodified float64 code at the recorded input; re-run with the rerun command"}
         if kf is not None:
             if kf["id"] not in seen_known:
                 seen_known.add(kf["id"])
